@@ -1744,3 +1744,441 @@ theorem buildRhs_accepts (cfg : Cfg) (sys : Sys) (hnd : sys.subst.Nodup) (hsub :
 end Accept
 
 end ChemModel.OdeBuild
+
+namespace ChemModel.OdeBuild
+open ChemModel.Kinetics
+
+/-! ## I. the general `get_odesys` (active substitutions, `constants=`) and user-supplied symbols of `_create_odesys` -/
+section General
+variable {R : Type} [CommRing R] [Algebra ℚ R]
+
+theorem applyPassive_mkVars (names ps : List String) (subs : List (String × ℚ)) :
+    applyPassive (mkVars names ps []) subs = mkVars names ps subs := rfl
+
+/-- without active substitutions and constants the general builder is the plain one -/
+theorem buildRhsG_plain (g : GCfg) (sys : Sys) (ha : g.active = []) (hc : g.consts = []) :
+    buildRhsG g sys = buildRhs g.toCfg sys := by
+  have h1 : subsForMembership g = g.subs := by simp [subsForMembership, ha]
+  have h2 : candidatePk g sys.subst = allPk g.toCfg sys.subst := by simp [candidatePk, allPk, h1, GCfg.toCfg]
+  have h3 : allPkG g sys.subst = allPk g.toCfg sys.subst := by simp [allPkG, h2, hc, dmem]
+  have h4 : usedConsts g sys.subst = [] := by simp [usedConsts, hc]
+  have h5 : uniqueDictG g sys.rxns = uniqueDict g.toCfg sys.rxns := by
+    simp only [uniqueDictG, uniqueDict, h1, ha, List.foldl_nil]
+    rfl
+  have h6 : paramNamesG g sys = paramNamesOf g.toCfg sys := by
+    simp only [paramNamesG, paramNamesOf, h3, h5]
+    rfl
+  have h7 : mkVarsG g sys = some (mkVars sys.subst (paramNamesOf g.toCfg sys) g.subs) := by
+    simp only [mkVarsG, ha, applyActive, h4, h6, List.append_nil, applyPassive_mkVars]
+  have h8 : subsKeysG g = g.subs.map Prod.fst := by simp [subsKeysG, ha, dkeys]
+  unfold buildRhsG buildRhs
+  simp only [h3, h5, h6, h7, h8, List.any_map, Function.comp_def]
+  rfl
+
+/-- everything an accepted general `get_odesys` build passed through -/
+theorem buildRhsG_ok {g : GCfg} {sys : Sys} {o : OdeSys} (h : buildRhsG g sys = .ok o) :
+    sys.rxns ≠ [] ∧
+    (∀ k ∈ subsKeysG g, k ∈ cstrKeys (cstrOf g.cstr sys.subst) ∨ k ∈ oriUk sys.rxns) ∧
+    (∀ n ∈ sys.subst, n ∉ paramNamesG g sys) ∧ "time" ∉ sys.subst ∧ "time" ∉ paramNamesG g sys ∧
+    ∃ vars rs exprs, mkVarsG g sys = some vars ∧ resolveAll vars sys.rxns = some rs ∧
+      (∀ k ∈ cstrNeeded (cstrOf g.cstr sys.subst), dmem vars k = true) ∧
+      readAll (sysRates (lookup vars) rs none (cstrOf g.cstr sys.subst)) sys.subst = some exprs ∧
+      o = { names := sys.subst, paramNames := paramNamesG g sys, paramKeys := allPkG g sys.subst,
+            unique := uniqueDictG g sys.rxns, exprs := exprs, rateExprs := rs.map (massAction (lookup vars)) } := by
+  unfold buildRhsG at h
+  dsimp only at h
+  split at h
+  · cases h
+  next h1 =>
+  split at h
+  · cases h
+  next h2 =>
+  split at h
+  · cases h
+  next h3 =>
+  split at h
+  · cases h
+  next h4 =>
+  split at h
+  · cases h
+  next h5 =>
+  split at h
+  · cases h
+  next vars hv =>
+  split at h
+  · cases h
+  next rs hrs =>
+  split at h
+  next h6 =>
+    split at h
+    · cases h
+    next exprs hex =>
+    split at h
+    · cases h
+    next h7 =>
+    refine ⟨?_, ?_, ?_, ?_, ?_, vars, rs, exprs, hv, hrs, ?_, readExprs_ok hex, ?_⟩
+    · intro e; rw [e] at h1; exact h1 rfl
+    · intro k hk
+      have := h2
+      simp only [List.any_eq_true, not_exists, not_and] at this
+      have := this k hk
+      simp only [Bool.not_eq_true', Bool.not_eq_false, Bool.or_eq_true, decide_eq_true_eq] at this
+      exact this
+    · intro n hn hc
+      apply h3
+      simp only [List.any_eq_true, decide_eq_true_eq]
+      exact ⟨n, hn, hc⟩
+    · intro hc; apply h4; simp [hc]
+    · intro hc; apply h4; simp [hc]
+    · intro k hk; exact (List.all_eq_true.mp h6) k hk
+    · cases h; rfl
+  · cases h
+
+/-- **general `get_odesys`, internal form**: also with `Expr`-valued substitutions and `constants=` every accepted build has one
+    expression per substance in substance order that evaluates to `Nᵀ·r` (+ feed) for the rate constants and concentrations
+    as the `variables` dict `vars = mkVarsG g sys` resolves them -/
+theorem rhsG_is_NT_r_internal (g : GCfg) (sys : Sys) (o : OdeSys) (hnd : sys.subst.Nodup) (h : buildRhsG g sys = .ok o)
+    (env : String → R) :
+    ∃ vars, mkVarsG g sys = some vars ∧ o.names = sys.subst ∧ o.exprs.length = sys.subst.length ∧
+      (∀ r ∈ sys.rxns, (resolve vars r.param).isSome = true) ∧
+      o.rateExprs.map (ev env) = sys.rxns.map (rateVal vars env) ∧
+      ∀ (i : ℕ) (s : String), sys.subst[i]? = some s → ∃ e, o.exprs[i]? = some e ∧
+        ev env e = (sys.rxns.map fun r => (netOf r s : R) * rateVal vars env r).sum +
+          (if g.cstr = true then cval vars env "feedratio" * (cval vars env ("fc_" ++ s) - cval vars env s) else 0) := by
+  obtain ⟨_, _, _, _, _, vars, rs, exprs, hv, hrs, _, hread, ho⟩ := buildRhsG_ok h
+  subst ho
+  obtain ⟨hl, hi⟩ := core_spec vars sys.rxns rs sys.subst _ exprs (cstrOf_nodup hnd) hrs hread env
+  have hspec := resolveAll_spec (R := R) vars env "" sys.rxns rs hrs
+  refine ⟨vars, hv, rfl, hl, fun r hr => (hspec.2.2 r hr).1, hspec.2.1, ?_⟩
+  intro i s hs
+  obtain ⟨e, he, hev⟩ := hi i s hs
+  exact ⟨e, he, by rw [hev, feedVal_cstrOf vars env g.cstr (List.mem_of_getElem? hs)]⟩
+
+/-! ### active substitutions -/
+
+/-- the value of a polynomial expression when every symbol `k` has the value `c k` -/
+def pexprVal (c : String → R) : PExpr → R
+  | .const q => algebraMap ℚ R q
+  | .sym k => c k
+  | .add a b => pexprVal c a + pexprVal c b
+  | .mul a b => pexprVal c a * pexprVal c b
+
+/-- **an active substitution means its expression**: if `act(variables)` succeeds, binding the symbols of the result gives
+    the value of the expression at the current values of the variables it reads -/
+theorem ev_evalPExpr (vars : List (String × Poly String)) (env : String → R) :
+    ∀ (e : PExpr) (p : Poly String), evalPExpr vars e = some p → ev env p = pexprVal (cval vars env) e := by
+  intro e
+  induction e with
+  | const q => intro p h; simp only [evalPExpr, Option.some.injEq] at h; subst h; simp [pexprVal, ev_const]
+  | sym k =>
+    intro p h
+    simp only [evalPExpr] at h
+    simp [pexprVal, cval, lookup, dgetD, h]
+  | add a b iha ihb =>
+    intro p h
+    simp only [evalPExpr] at h
+    cases ha : evalPExpr vars a with
+    | none => simp [ha] at h
+    | some x =>
+      cases hb : evalPExpr vars b with
+      | none => simp [ha, hb] at h
+      | some y =>
+        simp only [ha, hb, Option.some.injEq] at h
+        subst h
+        rw [ev_add, iha x ha, ihb y hb]; rfl
+  | mul a b iha ihb =>
+    intro p h
+    simp only [evalPExpr] at h
+    cases ha : evalPExpr vars a with
+    | none => simp [ha] at h
+    | some x =>
+      cases hb : evalPExpr vars b with
+      | none => simp [ha, hb] at h
+      | some y =>
+        simp only [ha, hb, Option.some.injEq] at h
+        subst h
+        rw [ev_mul, iha x ha, ihb y hb]; rfl
+
+/-- keys not written by the remaining active substitutions keep their entry -/
+theorem dget?_applyActive_of_not_mem (k : String) :
+    ∀ (l : List (String × PExpr)) (d d' : List (String × Poly String)), applyActive d l = some d' → k ∉ dkeys l →
+      dget? d' k = dget? d k := by
+  intro l
+  induction l with
+  | nil => intro d d' h _; simp only [applyActive, Option.some.injEq] at h; subst h; rfl
+  | cons a t ih =>
+    intro d d' h hk
+    obtain ⟨k', e⟩ := a
+    simp only [applyActive] at h
+    cases hv : evalPExpr d e with
+    | none => simp [hv] at h
+    | some v =>
+      simp only [hv] at h
+      have hk' : k' ≠ k := fun e' => hk (by simp [dkeys, e'])
+      have hkt : k ∉ dkeys t := fun e' => hk (by simp [dkeys] at e' ⊢; exact Or.inr e')
+      rw [ih _ _ h hkt, dget?_dset, if_neg hk']
+
+/-- **what an actively substituted key reads**: with distinct substitution keys, the entry of the `i`-th active substitution
+    `(k, e)` in the final `variables` is the value of `e` at the values the variables had when it was evaluated (the dict
+    `d` after the first `i` substitutions) — later substitutions and the passive values do not touch it -/
+theorem active_entry_value (d₀ : List (String × Poly String)) (pre post : List (String × PExpr)) (k : String) (e : PExpr)
+    (passive : List (String × ℚ)) (d' : List (String × Poly String))
+    (h : applyActive d₀ (pre ++ (k, e) :: post) = some d') (hpost : k ∉ dkeys post) (hpass : k ∉ dkeys passive)
+    (env : String → R) :
+    ∃ d, applyActive d₀ pre = some d ∧ (∃ p, evalPExpr d e = some p) ∧
+      cval (applyPassive d' passive) env k = pexprVal (cval d env) e := by
+  induction pre generalizing d₀ with
+  | nil =>
+    simp only [List.nil_append, applyActive] at h
+    cases hv : evalPExpr d₀ e with
+    | none => simp [hv] at h
+    | some p =>
+      simp only [hv] at h
+      refine ⟨d₀, rfl, ⟨p, hv⟩, ?_⟩
+      have h1 : dget? (applyPassive d' passive) k = dget? d' k :=
+        dget?_foldl_dset_of_not_mem (fun kv : String × ℚ => kv.1) (fun kv => Poly.const kv.2) passive d' k
+          (fun x hx e' => hpass (mem_dkeys_iff_exists.mpr ⟨x, hx, e'⟩))
+      have h2 : dget? d' k = some p := by
+        rw [dget?_applyActive_of_not_mem k post _ d' h hpost, dget?_dset, if_pos rfl]
+      simp only [cval, lookup, dgetD, h1, h2]
+      exact ev_evalPExpr d₀ env e p hv
+  | cons a t ih =>
+    obtain ⟨k', e'⟩ := a
+    simp only [List.cons_append, applyActive] at h
+    cases hv : evalPExpr d₀ e' with
+    | none => simp [hv] at h
+    | some v =>
+      simp only [hv] at h
+      obtain ⟨d, hd, hp, hval⟩ := ih _ h
+      exact ⟨d, by simp [applyActive, hv, hd], hp, hval⟩
+
+/-! ### `constants=` is a passive substitution of parameter keys -/
+
+theorem dget?_append {β : Type} (a b : List (String × β)) (k : String) :
+    dget? (a ++ b) k = match dget? a k with | some v => some v | none => dget? b k := by
+  induction a with
+  | nil => rfl
+  | cons h t ih =>
+    obtain ⟨k', v⟩ := h
+    simp only [List.cons_append, dget?_cons]
+    split
+    · rfl
+    · exact ih
+
+theorem dmem_append {β : Type} (a b : List (String × β)) (k : String) : dmem (a ++ b) k = (dmem a k || dmem b k) := by
+  unfold dmem
+  rw [dget?_append]
+  cases dget? a k <;> simp
+
+theorem dmem_usedConsts (g : GCfg) (subst : List String) (pk : String) :
+    dmem (usedConsts g subst) pk = (decide (pk ∈ candidatePk g subst) && dmem g.consts pk) := by
+  unfold usedConsts
+  induction candidatePk g subst with
+  | nil => simp [dmem]
+  | cons a t ih =>
+    simp only [List.filterMap_cons]
+    cases hc : dget? g.consts a with
+    | none =>
+      simp only [Option.map_none, ih, List.mem_cons]
+      by_cases e : pk = a
+      · subst e; simp [dmem, hc]
+      · simp [e]
+    | some c =>
+      simp only [Option.map_some]
+      have : dmem ((a, c) :: List.filterMap (fun pk => Option.map (fun c => (pk, c)) (dget? g.consts pk)) t) pk =
+          (decide (a = pk) || dmem (List.filterMap (fun pk => Option.map (fun c => (pk, c)) (dget? g.consts pk)) t) pk) := by
+        unfold dmem; rw [dget?_cons]; by_cases e : a = pk <;> simp [e]
+      rw [this, ih]
+      by_cases e : a = pk
+      · subst e; simp [dmem, hc]
+      · have e' : ¬ pk = a := fun h => e h.symm
+        simp [e, e']
+
+theorem regUnique_congr {s₁ s₂ : List (String × ℚ)} (u : List (String × Option ℚ)) (p : RateParam)
+    (h : ∀ uk, p.uniqueKey? = some uk → dmem s₁ uk = dmem s₂ uk) : regUnique s₁ u p = regUnique s₂ u p := by
+  cases p with
+  | raw k => rfl
+  | ma k => rfl
+  | named uk k => simp only [regUnique, h uk rfl]
+  | key uk => simp only [regUnique, h uk rfl]
+  | sym uk => simp only [regUnique, h uk rfl]
+
+theorem foldl_regUnique_congr {s₁ s₂ : List (String × ℚ)} (rxns : List Rxn) (u : List (String × Option ℚ))
+    (h : ∀ r ∈ rxns, ∀ uk, r.param.uniqueKey? = some uk → dmem s₁ uk = dmem s₂ uk) :
+    rxns.foldl (fun u r => regUnique s₁ u r.param) u = rxns.foldl (fun u r => regUnique s₂ u r.param) u := by
+  induction rxns generalizing u with
+  | nil => rfl
+  | cons r t ih =>
+    rw [List.foldl_cons, List.foldl_cons, regUnique_congr u r.param (h r (by simp))]
+    exact ih _ (fun r' hr' => h r' (List.mem_cons_of_mem _ hr'))
+
+/-- the configuration in which the values taken from `constants=` are written as passive substitutions instead -/
+def constsAsSubs (g : GCfg) (sys : Sys) : GCfg := { g with subs := g.subs ++ usedConsts g sys.subst, consts := [] }
+
+/-- **`constants=` is nothing but a passive substitution** of those parameter keys that the `constants` object provides:
+    the build with `constants=C` is literally the build whose `substitutions` are extended by `{pk: C.pk}` for the parameter
+    keys `pk` of the rate model that are not substituted already — same refusals, same names, same expressions.  (No active
+    substitutions; no unique key is a CSTR parameter key — otherwise `_reg_unique` would treat the two spellings differently.)
+    All theorems about passive substitutions therefore cover `constants=`. -/
+theorem constants_are_substitutions (g : GCfg) (sys : Sys) (ha : g.active = [])
+    (hukC : ∀ uk ∈ oriUk sys.rxns, uk ∉ cstrKeys (cstrOf g.cstr sys.subst)) :
+    buildRhsG g sys = buildRhsG (constsAsSubs g sys) sys := by
+  have hm : subsForMembership g = g.subs := by simp [subsForMembership, ha]
+  have hm' : subsForMembership (constsAsSubs g sys) = g.subs ++ usedConsts g sys.subst := by
+    simp [subsForMembership, constsAsSubs, ha]
+  have hcand : candidatePk (constsAsSubs g sys) sys.subst = allPkG g sys.subst := by
+    unfold allPkG candidatePk
+    rw [hm', hm, List.filter_filter]
+    apply List.filter_congr
+    intro pk hpk
+    show (!(dmem (g.subs ++ usedConsts g sys.subst) pk) && !(decide (pk = "time"))) = _
+    rw [dmem_append, dmem_usedConsts]
+    have hc : candidatePk g sys.subst = (dedupKeys (cstrKeys (cstrOf g.cstr sys.subst))).filter
+        fun pk => !(dmem g.subs pk) && !(decide (pk = "time")) := by unfold candidatePk; rw [hm]
+    have hmem : decide (pk ∈ candidatePk g sys.subst) = (!(dmem g.subs pk) && !(decide (pk = "time"))) := by
+      rw [hc]
+      have hpk' : pk ∈ dedupKeys (cstrKeys (cstrOf g.cstr sys.subst)) := hpk
+      simp only [List.mem_filter, hpk', true_and]
+      cases (!(dmem g.subs pk) && !(decide (pk = "time"))) <;> simp
+    rw [hmem]
+    cases dmem g.subs pk <;> cases decide (pk = "time") <;> cases dmem g.consts pk <;> rfl
+  have hall : allPkG (constsAsSubs g sys) sys.subst = allPkG g sys.subst := by
+    have : allPkG (constsAsSubs g sys) sys.subst = candidatePk (constsAsSubs g sys) sys.subst := by
+      simp [allPkG, constsAsSubs, dmem]
+    rw [this, hcand]
+  have hused : usedConsts (constsAsSubs g sys) sys.subst = [] := by simp [usedConsts, constsAsSubs]
+  have huniq : uniqueDictG (constsAsSubs g sys) sys.rxns = uniqueDictG g sys.rxns := by
+    unfold uniqueDictG
+    have hi : (constsAsSubs g sys).includeParams = g.includeParams := rfl
+    have hact : (constsAsSubs g sys).active = g.active := rfl
+    rw [hi, hact, ha, hm', hm]
+    cases g.includeParams with
+    | true => rfl
+    | false =>
+      simp only [Bool.false_eq_true, if_false, List.foldl_nil]
+      apply foldl_regUnique_congr
+      intro r hr uk huk
+      rw [dmem_append, dmem_usedConsts]
+      have : uk ∉ candidatePk g sys.subst := by
+        intro hc
+        have := (List.mem_filter.mp hc).1
+        exact hukC uk (mem_oriUk.mpr ⟨r, hr, huk⟩) (mem_dedupKeys.mp this)
+      simp [this]
+  have hpn : paramNamesG (constsAsSubs g sys) sys = paramNamesG g sys := by
+    unfold paramNamesG
+    rw [hall, huniq]
+    rfl
+  have hvars : mkVarsG (constsAsSubs g sys) sys = mkVarsG g sys := by
+    unfold mkVarsG
+    rw [hpn, hused]
+    show (match applyActive _ g.active with | none => none | some d => some (applyPassive d ((g.subs ++ usedConsts g sys.subst) ++ []))) = _
+    rw [List.append_nil]
+    rfl
+  have hkeys : (subsKeysG (constsAsSubs g sys)).any (fun k => !(decide (k ∈ cstrKeys (cstrOf g.cstr sys.subst)) ||
+      decide (k ∈ oriUk sys.rxns))) = (subsKeysG g).any (fun k => !(decide (k ∈ cstrKeys (cstrOf g.cstr sys.subst)) ||
+      decide (k ∈ oriUk sys.rxns))) := by
+    have : subsKeysG (constsAsSubs g sys) = dkeys g.subs ++ dkeys (usedConsts g sys.subst) ++ dkeys g.active := by
+      simp [subsKeysG, constsAsSubs, dkeys]
+    rw [this]
+    simp only [subsKeysG, List.any_append]
+    have hz : (dkeys (usedConsts g sys.subst)).any (fun k => !(decide (k ∈ cstrKeys (cstrOf g.cstr sys.subst)) ||
+        decide (k ∈ oriUk sys.rxns))) = false := by
+      rw [List.any_eq_false]
+      intro k hk
+      have hd : dmem (usedConsts g sys.subst) k = true := dmem_iff.mpr hk
+      rw [dmem_usedConsts] at hd
+      have hc : k ∈ candidatePk g sys.subst := by
+        simp only [Bool.and_eq_true, decide_eq_true_eq] at hd; exact hd.1
+      have := mem_dedupKeys.mp (List.mem_filter.mp hc).1
+      simp [this]
+    rw [hz]; simp
+  unfold buildRhsG
+  have hc' : (constsAsSubs g sys).cstr = g.cstr := rfl
+  have hp' : (constsAsSubs g sys).pyNums = g.pyNums := rfl
+  simp only [hc', hp', hkeys, hpn, hvars, hall, huniq]
+
+/-! ### `_create_odesys` with user-supplied symbols -/
+
+/-- the default entry point is the key collection followed by the common tail -/
+theorem buildRhs'_eq_tail (cfg : Cfg') (sys : Sys) :
+    buildRhs' cfg sys =
+      match collectKeys cfg.paramExprs sys.rxns with
+      | .error e => .error e
+      | .ok ks =>
+        if (dedupKeys (ks ++ cstrKeys (cstrOf cfg.cstr sys.subst))).length ≠ (ks ++ cstrKeys (cstrOf cfg.cstr sys.subst)).length
+        then .error .valueError
+        else buildTail' cfg sys (ks ++ cstrKeys (cstrOf cfg.cstr sys.subst)) := by
+  unfold buildRhs' buildTail'
+  rfl
+
+theorem buildTail'_ok {cfg : Cfg'} {sys : Sys} {keys : List String} {o : OdeSys'} (h : buildTail' cfg sys keys = .ok o) :
+    ∃ rs exprs, resolveAll (mkVars sys.subst keys cfg.paramExprs) sys.rxns = some rs ∧
+      readAll (sysRates (lookup (mkVars sys.subst keys cfg.paramExprs)) rs none (cstrOf cfg.cstr sys.subst)) sys.subst = some exprs ∧
+      o = { names := sys.subst, paramNames := keys, exprs := exprs } := by
+  unfold buildTail' at h
+  dsimp only at h
+  split at h
+  · cases h
+  split at h
+  · cases h
+  split at h
+  · cases h
+  split at h
+  · cases h
+  next rs hrs =>
+  split at h
+  · split at h
+    · cases h
+    next exprs hex =>
+    split at h
+    · cases h
+    · exact ⟨rs, exprs, hrs, hex, by cases h; rfl⟩
+  · cases h
+
+/-- **user-supplied symbol dictionaries of `_create_odesys`**:
+    a `substance_symbols` whose keys are not the substance keys in order is refused (ValueError); a `parameter_symbols` that
+    is no `OrderedDict` is refused (ValueError); without either the default builder runs; and with an ordered
+    `parameter_symbols` every accepted build has exactly its keys as parameter names, in its order, the substance keys as
+    names and `Nᵀ·r` as right-hand sides (internal form, for the constants and concentrations as `variables` resolves them). -/
+theorem user_symbols_spec (u : UCfg') (sys : Sys) (hnd : sys.subst.Nodup) (env : String → R) :
+    (∀ ks, u.substKeys = some ks → ks ≠ sys.subst → buildRhs'U u sys = .error .valueError) ∧
+    (∀ keys, (u.substKeys = none ∨ u.substKeys = some sys.subst) → u.paramKeys = some (false, keys) →
+      buildRhs'U u sys = .error .valueError) ∧
+    ((u.substKeys = none ∨ u.substKeys = some sys.subst) → u.paramKeys = none → buildRhs'U u sys = buildRhs' u.cfg sys) ∧
+    (∀ keys o, u.paramKeys = some (true, keys) → buildRhs'U u sys = .ok o →
+      o.names = sys.subst ∧ o.paramNames = keys ∧ o.exprs.length = sys.subst.length ∧
+      ∀ (i : ℕ) (s : String), sys.subst[i]? = some s → ∃ e, o.exprs[i]? = some e ∧
+        ev env e = (sys.rxns.map fun r => (netOf r s : R) * rateVal (mkVars sys.subst keys u.cfg.paramExprs) env r).sum +
+          (if u.cfg.cstr = true then
+             cval (mkVars sys.subst keys u.cfg.paramExprs) env "feedratio" *
+               (cval (mkVars sys.subst keys u.cfg.paramExprs) env ("fc_" ++ s) - cval (mkVars sys.subst keys u.cfg.paramExprs) env s)
+           else 0)) := by
+  refine ⟨?_, ?_, ?_, ?_⟩
+  · intro ks hk hne
+    simp [buildRhs'U, hk, hne]
+  · intro keys hs hp
+    rcases hs with hs | hs <;> simp [buildRhs'U, hs, hp]
+  · intro hs hp
+    rcases hs with hs | hs <;> simp [buildRhs'U, hs, hp]
+  · intro keys o hp h
+    have h' : buildTail' u.cfg sys keys = .ok o := by
+      unfold buildRhs'U at h
+      cases hsk : u.substKeys with
+      | none => simpa [hsk, hp] using h
+      | some ks =>
+        by_cases hks : ks = sys.subst
+        · simpa [hsk, hp, hks] using h
+        · simp [hsk, hks] at h
+    replace h := h'
+    · skip
+      obtain ⟨rs, exprs, hrs, hread, ho⟩ := buildTail'_ok h
+      subst ho
+      obtain ⟨hl, hi⟩ := core_spec _ sys.rxns rs sys.subst _ exprs (cstrOf_nodup hnd) hrs hread env
+      refine ⟨rfl, rfl, hl, ?_⟩
+      intro i s hs
+      obtain ⟨e, he, hev⟩ := hi i s hs
+      exact ⟨e, he, by rw [hev, feedVal_cstrOf _ env u.cfg.cstr (List.mem_of_getElem? hs)]⟩
+
+end General
+
+end ChemModel.OdeBuild
